@@ -21,8 +21,7 @@ CLAIMS = {
             "a move is generated iff it encodes a legal move of spec/Rules.v (pseudo-legal by the rules' own lists and king not attacked in the rules' successor), and no move "
             "is generated twice; promotions once per piece (C01_movegen_exact, C01_movegen_sound, C01_movegen_complete). Without ep_ok_b soundness is false (witness theorem: a "
             "parser-accepted, retro-inconsistent FEN). Both premises are kept by every generated move and null move and are evaluated (true) on every position of D the run uses. "
-            "Not proved: that the executable domain test in_D implies inv_b and ep_ok_b (evaluated instead), and NoDup of the specification's own list (needed only for the "
-            "Permutation form). The tie of the model to the Rust generator: the real generator (all entry points) against the extracted specification on generated positions of D (play-outs, suite FENs, "
+            "Also as a Permutation of lists (the rules list no move twice). Not proved: that the executable domain test in_D implies inv_b and ep_ok_b (evaluated instead). The tie of the model to the Rust generator: the real generator (all entry points) against the extracted specification on generated positions of D (play-outs, suite FENs, "
             "Chess960/DFRC starts, pin/check/ep/castling/promotion templates): a test, not a proof.", "DESIGN.md section 6 C01 and section 9", ""),
     "C02": ("proof", "Coq refinement proof makemove = Rules.apply for every move kind incl. castling in both geometries (stage decomposition, bit-by-bit board semantics, all nine state components) and for the null move; the executable premise and closure of D by differential model/implementation/Rules.apply on every legal move of sampled positions",
             "PARTIAL proof. Proved: (a) a null move passes the turn, clears the ep target, keeps absolute placement and rights; (b) for every "
@@ -51,7 +50,9 @@ CLAIMS = {
             "colour to move, under the executable test attack_pre_b (boards below 2^64, one man at most per square, one king a side), which is "
             "evaluated (true) on every position the run uses; the arithmetic link between counts and lists, perft's recursion with the bulk counter, "
             "captures = filtered generation in order; count_moves p = length (legal_moves p) for every position with no hypothesis (hence perft 1 = "
-            "number of generated moves). is_capture and the set-valued attack queries vs the rules: correspondence run.", "DESIGN.md section 6 C08", ""),
+            "number of generated moves); the set-valued attack queries and is_capture = the rules' (AttackSets, CaptureFacts); and against the rules' own tree: "
+            "perft d p = Rules.leaves d (abs_state p) for every depth and count_moves p = number of legal moves of the rules, on every position satisfying the "
+            "invariant and ep_ok_b (PerftRules: C01's equivalence + C02's refinement + closure; the rules list no move twice). Tie to the code: correspondence run.", "DESIGN.md section 6 C08", ""),
     "C09": ("proof", "Coq proof of shape, square-name injectivity and injectivity of the Chess960 notation + differential on all legal moves incl. parser round trip",
             "PARTIAL proof. Proved: string shape, square names injective, Chess960-mode strings determine the move. Standard-mode injectivity on standard "
             "geometry and the parser round trip: correspondence run.", "DESIGN.md section 6 C09", ""),
